@@ -264,6 +264,7 @@ def run(ctx):
     chk.ground('v is a non-square in Fq6', ref.f6_pow(ref.F6_V, (q ** 6 - 1) // 2) != ref.F6_ONE)
 
     chk.add_executor(ex)
+    translator_validation(ctx, ex, D, val)
     chk.discharge()
     ids.const_values = val
     ids.settle()
@@ -299,3 +300,56 @@ def replay(ctx, path):
 def run_and_code(ctx):
     run(ctx)
     return 1 if ctx.chk.violations else 0
+
+
+def translator_validation(ctx, ex, D, const_vals):
+    """DESIGN 2.5: the symbolic results (from MIR) are evaluated at seeded random inputs modulo q and compared with the output
+    of the NATIVE code (replay binary built from /repo) on the same inputs; a disagreement means the encoder or a leaf model is
+    wrong and makes the run inconclusive (exit 2), never a pass or a violation."""
+    import random
+    from mirsym import load
+    chk = ctx.chk
+    rnd = random.Random(ctx.seed * 1000003 + 9)
+    q = ref.Q
+    cases = []
+    k = z3.BitVec('k', 64)
+    for nm, ty, mk, ncoef in [('fq2', T2, fq2, 2), ('fq6', T6, fq6, 6), ('fq12', T12, fq12, 12)]:
+        a, b = mk('a'), mk('b')
+        for meth in ('mul', 'square', 'frobenius'):
+            st = State()
+            ra, rb = ex.alloc(st, a), ex.alloc(st, b)
+            if meth == 'mul':
+                ex.call(st, '<%s as ff::Field>::mul_assign' % ty, [ra, rb])
+            elif meth == 'square':
+                ex.call(st, '<%s as ff::Field>::square' % ty, [ra])
+            else:
+                ex.call(st, '<%s as ff::Field>::frobenius_map' % ty, [ra, BV(64, False, k)])
+            out = flat(ex.load(st, ra))
+            names_a = [str(x) for x in flat(a)]
+            names_b = [str(x) for x in flat(b)]
+            for _ in range(2):
+                env = dict(const_vals)
+                va = [rnd.randrange(q) for _ in names_a]
+                vb = [rnd.randrange(q) for _ in names_b]
+                kv = rnd.choice([0, 1, 2, 3, 5, 6, 7, 11, 12, 13, 1 << 40])
+                env.update(dict(zip(names_a, va)))
+                env.update(dict(zip(names_b, vb)))
+                env['k'] = kv
+                want = ' '.join('%096x' % C.eval_mod(C.zi(t), env, q) for t in out)
+                if meth == 'mul':
+                    cmd = '%s_mul %s %s' % (nm, ' '.join('%x' % v for v in va), ' '.join('%x' % v for v in vb))
+                elif meth == 'square':
+                    cmd = '%s_square %s' % (nm, ' '.join('%x' % v for v in va))
+                else:
+                    cmd = '%s_frobenius %s %d' % (nm, ' '.join('%x' % v for v in va), kv)
+                cases.append((cmd, want))
+    ex.harvested = len(ex.obligations)
+    n = load.Native('release')
+    try:
+        outs = n.run([c for c, _ in cases])
+    finally:
+        n.close()
+    bad = [(c[:40], o[:30], w[:30]) for (c, w), o in zip(cases, outs) if o.strip() != w]
+    chk.extra['translator_validation'] = {'cases': len(cases), 'disagreements': len(bad), 'what': 'symbolic result from MIR evaluated mod q vs native output of the release build'}
+    if bad:
+        ctx.inconclusive('translator validation: symbolic execution disagrees with the native code on %d of %d concrete cases, e.g. %r' % (len(bad), len(cases), bad[0]))
